@@ -13,6 +13,9 @@ DIV_EXEMPT = {
                               "extrapolation candidate is rejected by the acceptance "
                               "guard (R-GUARD compares objectives, NaN < x is False)",
     "spectral_norm:start": "norm of a standard normal draw, non-zero almost surely",
+    "spectral_norm:renormalise": "power iteration: the product is divided by its own norm after the "
+                                 "absolute convergence test; norm_vec == 0 implies eigenvalue == 0, so "
+                                 "`norm_vec**2 - eigenvalue**2 <= tol**2` has already left the loop",
 }
 # functions whose divisions are analytic facts of a closed form, not data degeneracy
 DIV_FUNC_EXEMPT = {
@@ -20,10 +23,22 @@ DIV_FUNC_EXEMPT = {
                 "is positive (analytic fact of the l2/3 prox, not decided here)",
     "prox_05": "closed form evaluated only for |x| >= t > 0",
     "prox_SCAD": "hyper-parameter denominators (gamma - 1 - stepsize): admissible range",
-    "spectral_norm": "power iteration: norm_vec == 0 implies eigenvalue == 0, so the "
-                     "convergence test `norm_vec**2 - eigenvalue**2 <= tol**2` breaks before "
-                     "the division",
 }
+def _abs_test_before(f, node):
+    """an `<expr> <= tol ** 2`-style absolute test followed by break precedes the division in
+    the same loop body (the reason of the renormalisation exemption)"""
+    for lp in ast.walk(f.node):
+        if isinstance(lp, ast.For) and any(x is node for x in ast.walk(lp)):
+            for st in lp.body:
+                if any(x is node for x in ast.walk(st)):
+                    return False
+                if isinstance(st, ast.If) and any(isinstance(b, ast.Break) for b in st.body) \
+                        and isinstance(st.test, ast.Compare) \
+                        and not any(isinstance(x, ast.BinOp) and isinstance(x.op, ast.Div) for x in ast.walk(st.test)):
+                    return True
+    return False
+
+
 WHILE_TABLE = {
     "skglm/utils/prox_funcs.py::prox_SLOPE":
         "variant k: strictly decreases, loop requires k > 0",
@@ -245,6 +260,13 @@ def r_div(A, ctx, scope, rule="R-DIV", where=None):
                 continue
             if f.name == "spectral_norm" and "eigenvector" in dtxt:
                 ctx.ob(rule, key, True, detail="exempt: " + DIV_EXEMPT["spectral_norm:start"])
+                continue
+            if f.name == "spectral_norm" and isinstance(node, ast.BinOp) and isinstance(node.left, ast.Name) \
+                    and isinstance(D, ast.Name) and any(
+                        isinstance(a, ast.Assign) and isinstance(a.targets[0], ast.Name) and a.targets[0].id == D.id
+                        and norm_src(a.value) in (f"norm({node.left.id})", f"np.linalg.norm({node.left.id})")
+                        for a in ast.walk(f.node)) and _abs_test_before(f, node):
+                ctx.ob(rule, key, True, detail="exempt: " + DIV_EXEMPT["spectral_norm:renormalise"])
                 continue
             compiled = f.njit or (f.cls is not None and (f.cls in A.prog.penalties or f.cls in A.prog.datafits)) \
                 or any(k.njit for k in [f.outer] if k is not None)
